@@ -105,10 +105,10 @@ def scripts(rnd, quick):
             san_ok = all(r[2] != 1 for r in regs) and all(a[5] == 1 for a in areas) and not BAD_DEFAULT[0]
             batch += rnd.sample([q for q in PROBE if q != 'sanitise' or san_ok], 3)
             if len(batch) > 600:
-                yield batch
+                yield rebased(batch, rnd, 0.4)
                 batch = []
     if batch:
-        yield batch
+        yield rebased(batch, rnd, 0.4)
 
 
 def run(tier):
